@@ -1076,7 +1076,7 @@ struct Driver {
     {
       Exec<C> e(U, explicit_ids);
       for (int op : prefix) e.apply(op, false);
-      for (int op : hist) e.apply(op, false);
+      for (size_t i = 0; i < hist.size(); ++i) e.apply(hist[i], i + 1 == hist.size());   // same checks as run()
       e.observe();                      // a state that already disagrees with the oracle is not expanded
       if (g_bad == before && !e.dead) {
         r = e.enabled_ops();
